@@ -57,8 +57,9 @@ PROPS = {
             "MantraDex.C10H.latest_after_set", "MantraDex.C10H.update_weights_same_delta", "MantraDex.C10H.update_weights_covered_partial",
             "MantraDex.C10H.update_weights_covered_counterexample", "MantraDex.C10H.reconcile_clears",
             "MantraDex.C10Sys.winv_step", "MantraDex.C10Sys.winv_init", "MantraDex.C10Sys.weights_covered_reachable",
+            "MantraDex.NonVacuity.w0_wInv", "MantraDex.NonVacuity.hist_stable", "MantraDex.NonVacuity.instance_weights",
         ],
-        "extra_modules": ["MantraDex.Properties.C10H", "MantraDex.Properties.C10Sys"],
+        "extra_modules": ["MantraDex.Properties.C10H", "MantraDex.Properties.C10Sys", "MantraDex.Properties.NonVacuity"],
         "streams": {"farmmath": (6000, 300000), "fm_hist": (120, 3000)},
         "what": "weight curve: weight >= amount, <= 16*amount (multiplier at one year evaluated from the generated coefficients), "
                 "monotone in amount and duration, super-additive in amount (source of F-07); update_weights moves the user's and the "
@@ -80,8 +81,9 @@ PROPS = {
                      "MantraDex.C01Sys.pm_inv_step_partial", "MantraDex.C01Sys.pm_custody_reachable_partial", "MantraDex.C01Sys.pm_inv_init",
                      "MantraDex.C01Sys.pm_inv_step", "MantraDex.C01Sys.pm_custody_reachable",
                      "MantraDex.C02Sys.lp_inv_step", "MantraDex.C02Sys.lp_inv_reachable", "MantraDex.C02Sys.pm_lp_balance_step_partial",
-                     "MantraDex.C01All.all_inv_step", "MantraDex.C01All.all_inv_reachable", "MantraDex.C01All.pm_custody_all_reachable", "MantraDex.C01All.all_inv_init"],
-        "extra_modules": ["MantraDex.Properties.C01Sys", "MantraDex.Properties.C02Sys", "MantraDex.Properties.C01All"],
+                     "MantraDex.C01All.all_inv_step", "MantraDex.C01All.all_inv_reachable", "MantraDex.C01All.pm_custody_all_reachable", "MantraDex.C01All.all_inv_init",
+                     "MantraDex.NonVacuity.w0_allInv", "MantraDex.NonVacuity.hist_effective", "MantraDex.NonVacuity.instance_custody"],
+        "extra_modules": ["MantraDex.Properties.C01Sys", "MantraDex.Properties.C02Sys", "MantraDex.Properties.C01All", "MantraDex.Properties.NonVacuity"],
         "streams": {"pm_hist": (160, 4000), "faults": (45, 1500)},
         "what": "handler-level conservation law of the pool manager for every non-LP token: reserves' + outflow(messages) = reserves + inflow(funds) "
                 "for swap, routed swap (any length), withdraw, multi-asset deposit, pool creation (keeps nothing), config/ownership; the single-asset "
@@ -201,12 +203,18 @@ PROPS = {
     "C20": {
         "module": "MantraDex.Properties.C20", "ns": "MantraDex.C20",
         "theorems": ["step_error_restores", "failing_submsg_aborts", "pm_execute_reply_modes", "pm_reply_shape", "closeFarms_reply_modes",
-                     "fm_execute_reply_modes", "fm_reply_no_effect", "failed_refund_tolerated"],
+                     "fm_execute_reply_modes", "fm_reply_no_effect", "failed_refund_tolerated",
+                     "MantraDex.C20Tx.create_farm_refund_failure_accepted", "MantraDex.C20Tx.create_farm_refund_failure_tolerated_partial",
+                     "MantraDex.C20Tx.create_farm_refund_failure_tolerated_counterexample", "MantraDex.C20Tx.close_farm_refund_failure_tolerated"],
+        "extra_modules": ["MantraDex.Properties.C20Tx"],
         "streams": {"faults": (60, 2000), "pm_hist": (80, 2000), "fm_hist": (80, 2000)},
         "what": "contracts' part: every sub-message any pool-manager / farm-manager handler can emit is reply-never, except the single-asset deposit's "
                 "inner swap (success, id 1) and close-farm refunds (error, bank send only); the farm manager's reply changes nothing, the pool "
                 "manager's reply only continues the deposit; hence in the runtime a failing sub-message aborts its parent (failing_submsg_aborts) "
-                "unless it is a close-farm refund, whose failure is tolerated with everything else as in the fault-free run (failed_refund_tolerated)",
+                "unless it is a close-farm refund, whose failure is tolerated with everything else as in the fault-free run (failed_refund_tolerated). WHOLE TRANSACTIONS (C20Tx): a CreateFarm that "
+                "auto-closes expired farms is STILL accepted when an injected failure hits one of their refunds (create_farm_refund_failure_accepted), and its result differs from the fault-free one by "
+                "at most that single refund, whose tokens stay in the farm manager - no other farm, position or balance is affected (create_farm_refund_failure_tolerated_partial; for a sender other than "
+                "the farm manager itself, kernel-checked counterexample otherwise); a manual CloseFarm is accepted under EVERY fault position and the farm is gone (close_farm_refund_failure_tolerated)",
         "assumptions": ["the CosmWasm runtime semantics (rollback scopes, reply modes) are modelled after cw-multi-test/wasmd and trusted; "
                         "validated by the fault-enumeration stream: every operation re-run with the k-th bank call failing, snapshot equality after each rejection"],
     },
@@ -289,8 +297,9 @@ PROPS = {
                      "MantraDex.C06Sys.claim_pays_entries", "MantraDex.C06Sys.entry_shape", "MantraDex.C06Sys.epoch_paid_le_emission",
                      "MantraDex.C06Sys.no_epoch_paid_twice_partial", "MantraDex.C06Sys.no_epoch_paid_twice_nonzero",
                      "MantraDex.C06Sys.no_epoch_paid_twice_default_until",
-                     "MantraDex.C07Sys.claimed_eq_ledger", "MantraDex.C07Sys.claimed_le_emitted", "MantraDex.C07Sys.claim_never_exhausted"],
-        "extra_modules": ["MantraDex.Properties.C07Split", "MantraDex.Properties.C06Sys", "MantraDex.Properties.C07Sys"],
+                     "MantraDex.C07Sys.claimed_eq_ledger", "MantraDex.C07Sys.claimed_le_emitted", "MantraDex.C07Sys.claim_never_exhausted",
+                     "MantraDex.C08Tx.claim_tx_effect", "MantraDex.NonVacuity.hist_effective_detail", "MantraDex.NonVacuity.instance_emission"],
+        "extra_modules": ["MantraDex.Properties.C07Split", "MantraDex.Properties.C06Sys", "MantraDex.Properties.C07Sys", "MantraDex.Properties.C08Tx", "MantraDex.Properties.NonVacuity"],
         "streams": {"fm_hist": (160, 4000)},
         "what": "END TO END OVER WHOLE HISTORIES (C06Sys): a ledger of every reward payment is derived from the history (the per-epoch terms of every ACCEPTED "
                 "top-level Claim; the coins a claim sends are exactly the sum of its entries, claim_pays_entries); in every history of account-signed transactions from a "
@@ -337,8 +346,11 @@ PROPS = {
         "theorems": ["normal_withdraw_requires_unlock", "normal_withdraw_pays_exact", "emergency_after_unlock_is_normal", "close_sets_expiry",
                      "partial_close_splits", "expand_adds_exact", "others_cannot_touch_position", "create_position_identifier",
                      "MantraDex.C08Sys.withdraw_after_unlock", "MantraDex.C08Sys.withdraw_before_unlock_refused",
-                     "MantraDex.C15Sys.positions_change_only_by_owner_tx_partial", "MantraDex.C15Sys.new_positions_belong_to_signer_partial"],
-        "extra_modules": ["MantraDex.Properties.C08Sys", "MantraDex.Properties.C15Sys"],
+                     "MantraDex.C15Sys.positions_change_only_by_owner_tx_partial", "MantraDex.C15Sys.new_positions_belong_to_signer_partial",
+                     "MantraDex.C08Tx.create_position_tx_effect", "MantraDex.C08Tx.expand_position_tx_effect",
+                     "MantraDex.C08Tx.close_position_tx_effect_general", "MantraDex.C08Tx.close_position_tx_effect_partial",
+                     "MantraDex.PosTx.Cx.close_zero_counterexample"],
+        "extra_modules": ["MantraDex.Properties.C08Sys", "MantraDex.Properties.C15Sys", "MantraDex.Properties.C08Tx"],
         "streams": {"fm_hist": (160, 4000)},
         "what": "a non-emergency withdrawal is accepted only from the owner, for a closed position whose unlock instant (close time + unlocking "
                 "duration, boundary second included) is reached, pays exactly the recorded amount and deletes the position; an emergency request after "
@@ -348,7 +360,10 @@ PROPS = {
                 "THROUGH THE RUNTIME (C08Sys): in every state satisfying the proved custody invariant FmInv, the owner's plain withdrawal of a closed, "
                 "unlocked position IS accepted, pays exactly the recorded amount from the farm manager to the owner, deletes the position and moves "
                 "nothing else (withdraw_after_unlock); before the unlock instant a plain withdrawal by anybody leaves the world unchanged "
-                "(withdraw_before_unlock_refused)",
+                "(withdraw_before_unlock_refused). WHOLE TRANSACTIONS (C08Tx, C15Sys): exact effect of CreatePosition (the attached LP moves to the farm manager, one new open position of "
+                "exactly that amount for the sender, everything else untouched), ExpandPosition (exactly the attached amount added to the sender's own position), ClosePosition (no token moves; "
+                "full close keeps the amount and fixes the unlock instant; a partial close splits into an open remainder and a closed part whose amounts add up to the original - a zero-amount "
+                "closed part is possible, kernel-checked counterexample, harmless: no LP created or lost); a position is exactly as it was after any transaction not signed by its owner",
         "assumptions": ["the frame theorem's freshness assumption on generated identifiers is part of the proved reachable-state invariant C05Sys.FmInv (autoFresh)"],
     },
 
@@ -357,8 +372,8 @@ PROPS = {
         "theorems": ["create_position_conserves", "expand_position_conserves", "close_position_conserves", "withdraw_position_conserves",
                      "claim_conserves", "create_farm_conserves", "expand_farm_conserves", "close_farm_conserves", "config_conserves",
                      "MantraDex.C05Sys.fm_inv_step", "MantraDex.C05Sys.fm_inv_reachable", "MantraDex.C05Sys.fm_custody_reachable",
-                     "MantraDex.C05Sys.fm_inv_init"],
-        "extra_modules": ["MantraDex.Properties.C05Sys"],
+                     "MantraDex.C05Sys.fm_inv_init", "MantraDex.C08Tx.claim_tx_effect", "MantraDex.NonVacuity.w0_fmInv", "MantraDex.NonVacuity.instance_custody"],
+        "extra_modules": ["MantraDex.Properties.C05Sys", "MantraDex.Properties.C08Tx", "MantraDex.Properties.NonVacuity"],
         "streams": {"fm_hist": (160, 4000), "faults": (45, 1500)},
         "what": "handler-level conservation law of the farm manager for every token: liability' + outflow(messages) <= liability + inflow(funds), "
                 "where liability = sum of recorded position amounts + sum over farms of (funded - claimed); proved for every message kind "
@@ -377,8 +392,9 @@ PROPS = {
                      "MantraDex.C11Sys.close_farm_tx_effect", "MantraDex.C11Sys.expand_farm_tx_effect", "MantraDex.C11Sys.create_farm_tx_effect_partial",
                      "MantraDex.C11Sys.farm_ids_nodup_step", "MantraDex.C11Sys.max_farms_mono_step", "MantraDex.C11Sys.farm_limit_step_partial",
                      "MantraDex.C11Sys.farm_limit_reachable_final", "MantraDex.C11Sys.farm_limit_reachable_partial", "MantraDex.C11Sys.farm_limit_reachable_inv",
-                     "MantraDex.C15Sys.farms_change_only_by_authorised_tx"],
-        "extra_modules": ["MantraDex.Properties.C11Sys", "MantraDex.Properties.C15Sys"],
+                     "MantraDex.C15Sys.farms_change_only_by_authorised_tx",
+                     "MantraDex.C20Tx.create_farm_autoclose_tx_effect_partial", "MantraDex.C20Tx.create_farm_autoclose_tx_effect_counterexample"],
+        "extra_modules": ["MantraDex.Properties.C11Sys", "MantraDex.Properties.C15Sys", "MantraDex.Properties.C20Tx"],
         "streams": {"fm_hist": (160, 4000)},
         "what": "create_farm takes exactly the reward (+ fee coin when a non-zero fee is due; one coin of reward+fee in the same denom), refunds a fee "
                 "overpayment and sends exactly the fee to the collector; records the full reward as budget, claimed 0, sender as owner, rate = "
@@ -388,7 +404,8 @@ PROPS = {
                 "whole farm transactions - CloseFarm (only the farm's owner or the contract owner; the farm disappears, nothing else changes; the owner receives exactly "
                 "funded - claimed from the farm manager, or, if that transfer is made to fail, nothing moves and the farm is still closed), ExpandFarm (only the owner; exactly "
                 "the attached amount moves into the farm's budget, end + amount/rate), CreateFarm when no expired farm is closed on the way (creator pays exactly reward + fee "
-                "net of the refund, the farm manager keeps exactly the reward, the fee collector gets exactly the fee; _partial: auto-close excluded); in every reachable state "
+                "net of the refund, the farm manager keeps exactly the reward, the fee collector gets exactly the fee; _partial: auto-close excluded; WITH auto-close: C20Tx.create_farm_autoclose_tx_effect_partial - every expired farm of the LP token is removed and its owner refunded exactly the "
+                "unclaimed remainder, in addition to the above); in every reachable state "
                 "farm identifiers are unique, the maximum never decreases and no LP token has more farms than the maximum (farm_limit_reachable_*; the version without unique "
                 "identifiers is refuted by a proved counterexample); a farm keeps owner, parameters and budget unless the transaction is its owner's ExpandFarm, a CloseFarm by "
                 "its owner / the contract owner, or somebody's CreateFarm after it expired (C15Sys.farms_change_only_by_authorised_tx)",
@@ -420,15 +437,16 @@ PROPS = {
         "theorems": ["default_and_cap", "max_slippage_accept_iff", "belief_accept_iff", "tolerance_monotone_swap", "tolerance_capped",
                      "min_receive_enforced", "deposit_tolerance_above_one_refused", "cp_deposit_accept_iff", "tolerance_monotone_deposit",
                      "cp_exact_proportion_accepted", "ss_exact_proportion_rejected_witness",
-                     "MantraDex.C12Sys.swap_tx_within_slippage", "MantraDex.C12Sys.route_tx_min_receive"],
-        "extra_modules": ["MantraDex.Properties.C12Sys"],
+                     "MantraDex.C12Sys.swap_tx_within_slippage", "MantraDex.C12Sys.route_tx_min_receive", "MantraDex.C20Tx.swap_tx_belief_price"],
+        "extra_modules": ["MantraDex.Properties.C12Sys", "MantraDex.Properties.C20Tx"],
         "streams": {"swapmath": (4000, 200000), "mintmath": (4000, 200000), "pm_hist": (120, 3000)},
         "what": "swap/route: accept iff slippage/(return+slippage) <= min(tolerance or 1%, 50%) (or, with a belief price, iff return >= expected or "
                 "short by <= tolerance); monotone in the tolerance; > 50% capped; routes deliver >= minimum_receive or fail; constant-product deposit: "
                 "accept iff both deposit ratios*(1-tol) <= pool ratios, monotone, exact proportion always accepted, tolerance > 1 refused. "
                 "Stableswap deposit tolerance rejects exact-proportion deposits: F-11 witness (kernel evaluation). THROUGH THE RUNTIME (C12Sys): an accepted Swap transaction "
                 "(any injected fault position) satisfied slippage/(return+slippage) <= min(max_slippage or 1%, 50%) on the pre-trade pool (swap_tx_within_slippage); an accepted route's "
-                "final output is at least minimum_receive (route_tx_min_receive); a rejected transaction changes nothing (step)",
+                "final output is at least minimum_receive (route_tx_min_receive); an accepted Swap under a belief price returned at least floor(offer/belief) or is short of it by at most the "
+                "effective tolerance (C20Tx.swap_tx_belief_price); a rejected transaction changes nothing (step)",
         "assumptions": ["stableswap deposit tolerance: known finding F-11"],
     },
 }
